@@ -232,10 +232,18 @@ def _xnpv(rate, values, dates):
 
 def _xirr(values, dates, guess=None):
     try:
-        return newton(lambda r: _xnpv(r, values, dates), guess, maxiter=100)
+        rate = newton(lambda r: _xnpv(r, values, dates), guess, maxiter=100)
 
     except (RuntimeError, FloatingPointError):
         raise xlerrors.NumExcelError('XIRR did not converge')
+
+    # newton() also stops when two iterates coincide (a far-off guess such as
+    # 5 came back as 5.0006): only a rate at which the net present value
+    # vanishes is a result.
+    scale = sum(abs(value) for value in values)
+    if not abs(_xnpv(rate, values, dates)) <= 1e-6 * scale:
+        raise xlerrors.NumExcelError('XIRR did not converge')
+    return rate
 
 
 @xl.register()
